@@ -292,6 +292,8 @@ type effects struct {
 	heap    map[string]bool
 	ghosts  map[string]bool
 	allocs  bool
+	allocd  map[string]bool       // arrays written only at freshly allocated references
+	waits   bool                  // contains a sync.Cond.Wait
 	patterns []string             // heap patterns from callee assigns clauses
 	heapExt bool                  // external library calls: non-rqlite heap only
 	targets map[string][]ast.Expr // heap name -> base expressions of the writes (targeted havoc)
@@ -316,12 +318,22 @@ func (ef *effects) untargeted(name string) {
 
 // allocEffects: allocating a value of type t writes only the heap arrays of that type
 // (at fresh references); recorded as untargeted writes of those arrays.
-func (vc *VC) allocEffects(t types.Type, ef *effects) {
-	ef.allocs = true
+func (vc *VC) allocEffects(t types.Type, outer *effects) {
+	outer.allocs = true
 	if t == nil {
-		ef.heapAll = true
+		outer.heapAll = true
 		return
 	}
+	// collect the arrays into a scratch record, then register them as allocation-only
+	ef := &effects{locals: map[types.Object]bool{}, heap: map[string]bool{}, ghosts: map[string]bool{}}
+	defer func() {
+		if outer.allocd == nil {
+			outer.allocd = map[string]bool{}
+		}
+		for n := range ef.heap {
+			outer.allocd[n] = true
+		}
+	}()
 	t = types.Unalias(t)
 	if p, ok := t.Underlying().(*types.Pointer); ok {
 		t = types.Unalias(p.Elem())
@@ -467,6 +479,18 @@ func (vc *VC) execFor(st *State, s *ast.ForStmt, label string) *State {
 	for _, inv := range invs {
 		h.assume(vc.specClause(h, vc.entryState(), inv, nil, s.Pos()))
 	}
+	// a loop around Cond.Wait: the state at the loop head is the state right after the initial
+	// Lock or the latest re-acquisition; that is what atlock() refers to after the loop.
+	var headLock *State
+	if ef.waits {
+		headLock = h.clone()
+		vc.lastLock = headLock
+	}
+	defer func() {
+		if headLock != nil {
+			vc.lastLock = headLock
+		}
+	}()
 	// body
 	var exitState *State
 	body := h.clone()
@@ -624,6 +648,29 @@ func (vc *VC) havocEffects(st *State, ef *effects, at ast.Node) *State {
 			}
 		}
 		vc.safe = saveSafe
+		// allocation-only effects: entries of references that existed before the loop are kept
+		var an []string
+		for n := range ef.allocd {
+			if !ef.heap[n] {
+				an = append(an, n)
+			}
+		}
+		sort.Strings(an)
+		n0 := vc.heapGetDefault(st, "gl$$nalloc", IntLit(0))
+		for _, n := range an {
+			srt, ok := vc.universe[n]
+			if !ok {
+				continue
+			}
+			if k, _, isArr := arrParts(srt); !isArr || k != SInt {
+				h.heap[n] = vc.fresh(n, srt)
+				continue
+			}
+			old := h.heap[n]
+			nv := vc.fresh(n, srt)
+			vc.emit(fmt.Sprintf("(assert (forall ((r Int)) (! (=> (<= r (+ alloc$base %s)) (= (select %s r) (select %s r))) :pattern ((select %s r)))))", n0.S, nv.S, old.S, nv.S))
+			h.heap[n] = nv
+		}
 	}
 	vc.havocGhosts(h, ef.ghosts)
 	// ghost locals modified by anchored updates inside the fragment
